@@ -336,15 +336,15 @@ theorem loopW_inv (n : Nat) (tab : Table) (named : List Cmd) (snt : Cmd)
       have := h.ring
       simp only [List.length_cons] at this
       omega
-    have h1 : Inv n { s with ring := rest, fpt := 1 } := { h with ring := hrest }
+    have h1 : Inv n { s with ring := rest, fpt := 1, eaten := s.eaten ++ [ch] } := { h with ring := hrest }
     rw [loopW]
     by_cases hc : ch = 10 ∨ s.bufp ≥ 79
     · rw [if_pos hc]
       obtain ⟨hs1, hr1⟩ := tokenize_find_inv n tab named snt _ ht h1 (by show (1 : Nat) ≠ 2; decide)
       obtain ⟨hcore, hf2, hring, hlive⟩ := runCmd_inv n tab named snt _ ht hn hs1 rfl
       simp only []
-      by_cases hy : (runCmd tab { findCommand tab (doTokenize { s with ring := rest, fpt := 1 }) with pt := 0, fpt := 2 }).2 = .yielded ∨
-          (runCmd tab { findCommand tab (doTokenize { s with ring := rest, fpt := 1 }) with pt := 0, fpt := 2 }).2 = .waiting
+      by_cases hy : (runCmd tab { findCommand tab (doTokenize { s with ring := rest, fpt := 1, eaten := s.eaten ++ [ch] }) with pt := 0, fpt := 2 }).2 = .yielded ∨
+          (runCmd tab { findCommand tab (doTokenize { s with ring := rest, fpt := 1, eaten := s.eaten ++ [ch] }) with pt := 0, fpt := 2 }).2 = .waiting
       · rw [if_pos hy]; exact hlive hy
       · rw [if_neg hy]
         exact loopW_inv n tab named snt ht hn rest _ (finishCmd_inv n _ _ rest hcore hrest)
